@@ -508,7 +508,7 @@ impl Monitor for C04 {
          is compared with the sum of the true encoded lengths (independent assembler, DASM zero-page rule, linker-like placement of every \
          variable) of the compiler-emitted lines plus the declared/default size of every asm() occurrence (recognised by a marker comment). \
          The corpus varies placement: zero page, superchip, 3E and 3E+ cartridge RAM, ROM tables, address-constant pointers below and above $100, \
-         locals, parameters. non-trivial = at least one function compared"
+         asm statements of declared size 0; one pinned source. locals, parameters. non-trivial = at least one function compared"
             .into()
     }
     fn assumptions(&self) -> Vec<String> {
